@@ -7,6 +7,24 @@ from __future__ import annotations
 from common import make_sim, obs_state, lower_memory
 
 
+def isa_regs(t):
+    """(rs1, rs2, rd) of a raw instruction tuple by the ISA's formats — independent of the implementation's own
+    access_register_file / get_write_register (a decode stage that reads the wrong register must show up as a timing difference)"""
+    from common import fmt_kind
+    k = fmt_kind(t[0])
+    if k == "R":
+        return t[2], t[3], t[1]
+    if k in ("I", "L"):
+        return t[2], None, t[1]
+    if k == "S":
+        return t[1], t[2], None
+    if k == "B":
+        return t[1], t[2], None
+    if k in ("U", "J"):
+        return None, None, t[1]
+    return None, None, None           # ecall, ebreak, fence, csr (outside the property)
+
+
 def single_dynamic_trace(spec, maxsteps=400):
     """dynamic instruction stream of the single-cycle run: addr, sources, destination, redirect, ecall.
     Returns None if the run faults or does not finish."""
@@ -19,7 +37,7 @@ def single_dynamic_trace(spec, maxsteps=400):
         pc = st.program_counter
         ins = st.instruction_memory.read_instruction(pc)
         bc0 = st.performance_metrics.branch_count
-        a1, a2 = ins.access_register_file(st)[:2]
+        a1, a2, dst = isa_regs(spec[0][pc // 4])
         try:
             sim.step()
         except Exception:
@@ -27,7 +45,7 @@ def single_dynamic_trace(spec, maxsteps=400):
         n += 1
         srcs = {x for x in (a1, a2) if x}          # None and x0 dropped
         redirect = (st.performance_metrics.branch_count != bc0) or ins.mnemonic in ("jal", "jalr") or st.exit_code is not None
-        tr.append({"addr": pc, "srcs": srcs, "dst": ins.get_write_register(), "redirect": redirect,
+        tr.append({"addr": pc, "srcs": srcs, "dst": dst, "redirect": redirect,
                    "ecall": isinstance(ins, ECALL)})
     if not sim.is_done():
         return None
